@@ -12,9 +12,26 @@ requests                         reply
   sendq <rid> <num>/<den>        seq=<n>;steps=<k>     (delay as a decimal fraction, converted by `stepsOf`)
   broadcast <ty> <steps>         seqs=<n>rid,…|->
   broadcastq <ty> <num>/<den>    seqs=<n>rid,…|->
+  randomevents <ty> <num> <steps> <draw.draw…|->      seqs=<n>rid,…|->     (random_events with the given random indices)
+  randomeventsq <ty> <num> <num>/<den> <draws>        seqs=<n>rid,…|->
   step                           step=<now>;h=<agent>:<seq>,…;d=<seq>,…      (handled in handler order; dropped sorted)
   queue                          q=<seq>:<remaining>,…                      (model.events in list order)
   steps <dn>/<dd> <tn>/<td>      <k>
+wave 2a (a step with user code, `midStep`; fuel 1000):
+  stepx <prog>                   step=<now>;h=…;d=…;e=<seq>rid,…|->;a=<live ids after the step>;stuck=<0|1>
+      <prog> = `-` or entries joined by `;`:  A<id>=<effs> (act() of agent id)  E<seq>=<effs> (handler of event seq)
+      <effs> = effects joined by `|`:  c<ty>  d<id.id|->  g<ty:n.ty:n|->  r  s<rid>/<steps>  q<rid>/<num>/<den>
+               b<ty>/<steps>  p<ty>/<num>/<den>
+wave 2b (extended machine `XState`, own state):
+  xnew                           ok
+  xcreate <ty>                   ok
+  xcreatet <ty> <state> <tbl>    ok        <tbl> = `-` or rows `<state>:<name.name…>` joined by `,` (`<state>:` = no names)
+  xdelete <ids> | xconfigure <spec> | xreset     ok
+  xstate <id> <st>               ok
+  xsend <rid> <steps> <name> <0|1>          seq=<n>
+  xsendq <rid> <num>/<den> <name> <0|1>     seq=<n>;steps=<k>
+  xbroadcast <ty> <steps> | xbroadcastq <ty> <num>/<den>     seqs=…
+  xstep                          step=<now>;h=…;i=<agent>:<seq>,…;d=…;ab=<0|1>;in=<id>:<seq.seq…>,…   (non-empty inboxes)
 anything else                    bad-op
 -/
 open Bptk.C11
@@ -49,6 +66,61 @@ structure D where
   s : State
   tn : Nat
   td : Nat
+  x : XState := XState.init
+
+def dotNats (s : String) : Option (List Nat) :=
+  if s == "-" || s == "" then some [] else (s.splitOn ".").mapM (·.toNat?)
+
+def parseEff (tn td : Nat) (t : String) : Option Eff :=
+  let body := (t.drop 1).toString
+  match (t.take 1).toString with
+  | "c" => body.toNat?.map Eff.create
+  | "d" => (dotNats body).map Eff.delete
+  | "g" => if body == "-" then some (.configure []) else
+      ((body.splitOn ".").mapM (fun (p : String) => match p.splitOn ":" with
+        | [a, b] => do some ((← a.toNat?), (← b.toNat?))
+        | _ => (none : Option (Nat × Nat)))).map Eff.configure
+  | "r" => if body == "" then some .reset else none
+  | "s" => match body.splitOn "/" with
+      | [r, k] => do some (.send (← r.toNat?) (← k.toNat?))
+      | _ => none
+  | "q" => match body.splitOn "/" with
+      | [r, n, dd] => do
+          let dd ← dd.toNat?
+          if dd = 0 then none else some (.send (← r.toNat?) (stepsOf (← n.toNat?) dd tn td))
+      | _ => none
+  | "b" => match body.splitOn "/" with
+      | [r, k] => do some (.broadcast (← r.toNat?) (← k.toNat?))
+      | _ => none
+  | "p" => match body.splitOn "/" with
+      | [r, n, dd] => do
+          let dd ← dd.toNat?
+          if dd = 0 then none else some (.broadcast (← r.toNat?) (stepsOf (← n.toNat?) dd tn td))
+      | _ => none
+  | _ => none
+
+/-- (act table by agent id, handler table by event seq) -/
+def parseProg (tn td : Nat) (s : String) : Option (List (Nat × List Eff) × List (Nat × List Eff)) :=
+  if s == "-" then some ([], []) else
+  (s.splitOn ";").foldlM (fun (acc : List (Nat × List Eff) × List (Nat × List Eff)) ent =>
+    match ent.splitOn "=" with
+    | [k, v] => do
+        let key ← ((k.drop 1).toString).toNat?
+        let effs ← (v.splitOn "|").mapM (parseEff tn td)
+        match (k.take 1).toString with
+        | "A" => some (acc.1 ++ [(key, effs)], acc.2)
+        | "E" => some (acc.1, acc.2 ++ [(key, effs)])
+        | _ => none
+    | _ => none) ([], [])
+
+def parseTbl (s : String) : Option (List (Nat × List Nat)) :=
+  if s == "-" then some [] else
+  (s.splitOn ",").mapM (fun row => match row.splitOn ":" with
+    | [a, b] => do some ((← a.toNat?), (← dotNats b))
+    | _ => none)
+
+def xseqs (d : D) (x' : XState) : String :=
+  "seqs=" ++ commaOr ((x'.s.sent.drop d.x.s.sent.length).map fun m => s!"{m.seq}>{m.rid}")
 
 def bcast (d : D) (t k : Nat) : D × String :=
   let s' := step d.s (.broadcast t k)
@@ -84,11 +156,75 @@ def stepLine (d : D) (line : String) : D × String :=
   | ["broadcastq", t, f] => match t.toNat?, parseFrac f with
       | some t, some (dn, dd) => bcast d t (stepsOf dn dd d.tn d.td)
       | _, _ => (d, "bad-op")
+  | ["randomevents", t, n, k, dr] => match t.toNat?, n.toNat?, k.toNat?, dotNats dr with
+      | some t, some n, some k, some dr =>
+          let s' := step d.s (.randomEvents t n k dr)
+          ({ d with s := s' }, "seqs=" ++ commaOr ((s'.sent.drop d.s.sent.length).map fun m => s!"{m.seq}>{m.rid}"))
+      | _, _, _, _ => (d, "bad-op")
+  | ["randomeventsq", t, n, f, dr] => match t.toNat?, n.toNat?, parseFrac f, dotNats dr with
+      | some t, some n, some (dn, dd), some dr =>
+          let s' := step d.s (.randomEvents t n (stepsOf dn dd d.tn d.td) dr)
+          ({ d with s := s' }, "seqs=" ++ commaOr ((s'.sent.drop d.s.sent.length).map fun m => s!"{m.seq}>{m.rid}"))
+      | _, _, _, _ => (d, "bad-op")
   | ["step"] =>
       let s' := step d.s .step
       let hs := (s'.log.drop d.s.log.length).map fun h => s!"{h.agent}:{h.msg.seq}"
       let ds := (sortNats ((s'.dropped.drop d.s.dropped.length).map (·.msg.seq))).map toString
       ({ d with s := s' }, s!"step={s'.now};h={commaOr hs};d={commaOr ds}")
+  | ["stepx", pr] => match parseProg d.tn d.td pr with
+      | none => (d, "bad-op")
+      | some (acts, evs) =>
+          let P : Prog := { onEvent := fun m => (evs.lookup m.seq).getD [], onAct := fun _ i => (acts.lookup i).getD [] }
+          let r := midStep P 1000 d.s
+          let s' := r.st
+          let hs := (s'.log.drop d.s.log.length).map fun h => s!"{h.agent}:{h.msg.seq}"
+          let ds := (sortNats ((s'.dropped.drop d.s.dropped.length).map (·.msg.seq))).map toString
+          let es := (s'.sent.drop d.s.sent.length).map fun m => s!"{m.seq}>{m.rid}"
+          let ids := s'.agents.map fun a => toString a.id
+          ({ d with s := s' },
+           s!"step={s'.now};h={commaOr hs};d={commaOr ds};e={commaOr es};a={commaOr ids};stuck={if r.stuck then 1 else 0}")
+  | ["xnew"] => ({ d with x := XState.init }, "ok")
+  | ["xcreate", t] => match t.toNat? with
+      | some t => ({ d with x := xstep d.x (.base (.create t)) }, "ok")
+      | none => (d, "bad-op")
+  | ["xcreatet", t, st, tb] => match t.toNat?, st.toNat?, parseTbl tb with
+      | some t, some st, some tb => ({ d with x := xstep d.x (.createT t { state := st, tbl := tb }) }, "ok")
+      | _, _, _ => (d, "bad-op")
+  | ["xdelete", l] => match parseNats l with
+      | some ids => ({ d with x := xstep d.x (.base (.delete ids)) }, "ok")
+      | none => (d, "bad-op")
+  | ["xconfigure", sp] => match parseSpec sp with
+      | some sp => ({ d with x := xstep d.x (.base (.configure sp)) }, "ok")
+      | none => (d, "bad-op")
+  | ["xreset"] => ({ d with x := xstep d.x (.base .reset) }, "ok")
+  | ["xstate", i, st] => match i.toNat?, st.toNat? with
+      | some i, some st => ({ d with x := xstep d.x (.setState i st) }, "ok")
+      | _, _ => (d, "bad-op")
+  | ["xsend", r, k, nm, rs] => match r.toNat?, k.toNat?, nm.toNat?, rs.toNat? with
+      | some r, some k, some nm, some rs =>
+          ({ d with x := xstep d.x (.sendX r k nm (rs != 0)) }, s!"seq={d.x.s.nextSeq}")
+      | _, _, _, _ => (d, "bad-op")
+  | ["xsendq", r, f, nm, rs] => match r.toNat?, parseFrac f, nm.toNat?, rs.toNat? with
+      | some r, some (dn, dd), some nm, some rs =>
+          let k := stepsOf dn dd d.tn d.td
+          ({ d with x := xstep d.x (.sendX r k nm (rs != 0)) }, s!"seq={d.x.s.nextSeq};steps={k}")
+      | _, _, _, _ => (d, "bad-op")
+  | ["xbroadcast", t, k] => match t.toNat?, k.toNat? with
+      | some t, some k => let x' := xstep d.x (.base (.broadcast t k)); ({ d with x := x' }, xseqs d x')
+      | _, _ => (d, "bad-op")
+  | ["xbroadcastq", t, f] => match t.toNat?, parseFrac f with
+      | some t, some (dn, dd) =>
+          let x' := xstep d.x (.base (.broadcast t (stepsOf dn dd d.tn d.td))); ({ d with x := x' }, xseqs d x')
+      | _, _ => (d, "bad-op")
+  | ["xstep"] =>
+      let x' := xstep d.x (.base .step)
+      let hs := (x'.s.log.drop d.x.s.log.length).map fun h => s!"{h.agent}:{h.msg.seq}"
+      let is := (x'.ignored.drop d.x.ignored.length).map fun h => s!"{h.agent}:{h.msg.seq}"
+      let ds := (sortNats ((x'.s.dropped.drop d.x.s.dropped.length).map (·.msg.seq))).map toString
+      let ab := if x'.aborted.length > d.x.aborted.length then 1 else 0
+      let inb := (x'.s.agents.filter (fun a => !a.inbox.isEmpty)).map fun a =>
+        s!"{a.id}:" ++ ".".intercalate ((sortNats (a.inbox.map (·.msg.seq))).map toString)
+      ({ d with x := x' }, s!"step={x'.s.now};h={commaOr hs};i={commaOr is};d={commaOr ds};ab={ab};in={commaOr inb}")
   | ["queue"] => (d, "q=" ++ commaOr (d.s.events.map fun e => s!"{e.msg.seq}:{e.remaining}"))
   | ["steps", a, b] => match parseFrac a, parseFrac b with
       | some (dn, dd), some (tn, td) => if tn = 0 then (d, "bad-op") else (d, toString (stepsOf dn dd tn td))
